@@ -7,6 +7,7 @@ import urllib.parse
 from typing import (
     TYPE_CHECKING,
     Callable,
+    Iterable,
     Optional,
     Union,
 )
@@ -62,7 +63,30 @@ def to_wikitext(
     WikiNodes in the returned value."""
     assert node_handler_fn is None or callable(node_handler_fn)
 
+    # Nesting depth of template / parser function / template argument
+    # arguments being written (the parser keeps <noinclude/> as text there)
+    in_args = 0
+
+    def join(parts: Iterable[str]) -> str:
+        # Bracket protection also has to work across the pieces that are
+        # glued together here: a bracket at the edge of one piece must not
+        # pair up with the same bracket at the edge of the next one (text
+        # "x]" in front of the "]]" that closes a link, text "x[" in front
+        # of "[[", text "]y" behind the "]" of an external link, two strings
+        # of a list).
+        out: list[str] = []
+        last = ""
+        for part in parts:
+            if not part:
+                continue
+            if in_args == 0 and part[0] == last and last in "[]":
+                out.append("<noinclude/>")
+            out.append(part)
+            last = part[-1]
+        return "".join(out)
+
     def recurse(node: Union[GeneralNode, WikiNodeListArgs]) -> str:
+        nonlocal in_args
         if isinstance(node, str):
             # Certain constructs needs to be protected so that they don't get
             # parsed when we convert back and forth between wikitext and parsed
@@ -73,7 +97,7 @@ def to_wikitext(
             node = re.sub(r"\](?=\])", "]<noinclude/>", node)
             return node
         if isinstance(node, (list, tuple)):
-            return "".join(map(recurse, node))
+            return join(map(recurse, node))
         if not isinstance(node, WikiNode):
             raise RuntimeError("invalid WikiNode: {}".format(node))
 
@@ -81,7 +105,7 @@ def to_wikitext(
             ret = node_handler_fn(node)
             if ret is not None and ret is not node:
                 if isinstance(ret, (list, tuple)):
-                    return "".join(recurse(x) for x in ret)
+                    return join(recurse(x) for x in ret)
                 return recurse(ret)
 
         kind = node.kind
@@ -124,14 +148,19 @@ def to_wikitext(
             parts.append("]]")
             parts.append(recurse(node.children))
         elif kind == NodeKind.TEMPLATE:
+            in_args += 1
             parts.append("{{")
             parts.append("|".join(map(recurse, node.largs)))
             parts.append("}}")
+            in_args -= 1
         elif kind == NodeKind.TEMPLATE_ARG:
+            in_args += 1
             parts.append("{{{")
             parts.append("|".join(map(recurse, node.largs)))
             parts.append("}}}")
+            in_args -= 1
         elif kind == NodeKind.PARSER_FN:
+            in_args += 1
             first_part = "{{" + recurse(node.largs[0])
             if len(node.largs) > 1:
                 # extra empty arg could affect expand result
@@ -140,6 +169,7 @@ def to_wikitext(
             parts.append(first_part)
             parts.append("|".join(map(recurse, node.largs[1:])))
             parts.append("}}")
+            in_args -= 1
         elif kind == NodeKind.URL:
             parts.append("[")
             if node.largs:
@@ -216,7 +246,7 @@ def to_wikitext(
             parts.append("''")
         else:
             raise RuntimeError("unimplemented {}".format(kind))
-        ret = "".join(parts)
+        ret = join(parts)
         return ret
 
     return recurse(node)
